@@ -151,6 +151,25 @@ class ScoreColumnMulti(BaseEstimator):
         return np.column_stack([1 - s, s])
 
 
+class PredictOnlyColumn(BaseEstimator):
+    """Column pass-through offering ``predict`` only (so predict_method="auto" must resolve to predict)."""
+
+    def __init__(self, col=0):
+        self.col = col
+
+    def fit(self, X, y=None, **kwargs):
+        self.fitted_ = True
+        return self
+
+    def __sklearn_is_fitted__(self):
+        return True
+
+    def predict(self, X):
+        if isinstance(X, pd.DataFrame):
+            return X.iloc[:, self.col].to_numpy(dtype=float)
+        return np.asarray(X, dtype=float)[:, self.col]
+
+
 class ExactTableW(ExactTable):
     """ExactTable whose fit takes its weights under the name ``w`` (for ``sample_weight_name='w'``)."""
 
